@@ -346,7 +346,13 @@ func (c *netConnObj) invoke(e *Exec, method string, args []value) value {
 					max = 3
 				}
 				k := 1
-				if max > 1 {
+				if max > 1 && e.sh.cfg.Concrete != nil {
+					k = len(c.q) // see the pipe model
+					if len(buf) < k {
+						k = len(buf)
+					}
+				}
+				if max > 1 && e.sh.cfg.Concrete == nil {
 					k = 1 + e.choose(max)
 					if k == max {
 						k = len(c.q)
@@ -480,19 +486,30 @@ func init() {
 	}
 }
 
-// unicode classification of a symbolic rune: exact for runes up to 0xFF (the
-// Latin-1 tables of package unicode, as ranges); a larger symbolic rune is
-// concretised.
+// unicode classification of a symbolic rune: exact for runes up to 0x7FF (one-
+// and two-byte encodings; the ranges are read off the real predicate once); a
+// larger symbolic rune is concretised.
 func init() {
 	type rng struct{ lo, hi int64 }
-	class := func(name string, ranges []rng, native func(rune) bool) {
+	class := func(name string, native func(rune) bool) {
+		var ranges []rng
+		for r := rune(0); r <= 0x7FF; r++ {
+			if !native(r) {
+				continue
+			}
+			if n := len(ranges); n > 0 && ranges[n-1].hi == int64(r)-1 {
+				ranges[n-1].hi = int64(r)
+			} else {
+				ranges = append(ranges, rng{int64(r), int64(r)})
+			}
+		}
 		stubs["unicode."+name] = func(e *Exec, fn *ssa.Function, args []value) value {
 			r := args[0].(Int)
 			if r.isConc() {
 				return Bool{C: native(rune(r.signed()))}
 			}
 			r.S = true
-			le := intBinop(token.LEQ, r, mkInt(32, true, 0xFF)).(Bool)
+			le := intBinop(token.LEQ, r, mkInt(32, true, 0x7FF)).(Bool)
 			ge := intBinop(token.GEQ, r, mkInt(32, true, 0)).(Bool)
 			if !e.decide(band(le, ge)) {
 				c := e.concretize(r)
@@ -507,9 +524,9 @@ func init() {
 			return Bool{C: e.decide(cond)}
 		}
 	}
-	class("IsLetter", []rng{{'A', 'Z'}, {'a', 'z'}, {0xAA, 0xAA}, {0xB5, 0xB5}, {0xBA, 0xBA}, {0xC0, 0xD6}, {0xD8, 0xF6}, {0xF8, 0xFF}}, unicode.IsLetter)
-	class("IsDigit", []rng{{'0', '9'}}, unicode.IsDigit)
-	class("IsSpace", []rng{{'\t', '\r'}, {' ', ' '}, {0x85, 0x85}, {0xA0, 0xA0}}, unicode.IsSpace)
+	class("IsLetter", unicode.IsLetter)
+	class("IsDigit", unicode.IsDigit)
+	class("IsSpace", unicode.IsSpace)
 }
 
 // concretizeStr: the string with every symbolic byte concretised (a fork per
